@@ -207,9 +207,93 @@ func c15one(c *core.Ctx, t *gen.T, label string, recursive bool) {
 	c.Sample(map[string]any{"type": trunc(label, 300), "schema": trunc(ir.JSON(), 300)})
 }
 
+// registration scenario: registered types map to their registered schema, in every position, and the
+// mapping is a function of the type and the registry as they are at the time of the call
+type c15Reg struct{ V int64 }
+type c15Outer struct {
+	A  c15Reg            `json:"a"`
+	P  *c15Reg           `json:"p"`
+	S  []c15Reg          `json:"s"`
+	M  map[string]c15Reg `json:"m"`
+	O  c15Reg            `json:"o,omitempty"`
+	U  [23]byte          `json:"u"`
+	PU *[23]byte         `json:"pu"`
+	SU [][23]byte        `json:"su"`
+}
+
+func c15registration(c *core.Ctx) {
+	get := func() *refavro.Schema {
+		s, err := avro.SchemaForType(c15Outer{})
+		if err != nil {
+			c.Violate("registered", "SchemaForType failed: "+err.Error(), nil)
+			return nil
+		}
+		return libToIR(s)
+	}
+	field := func(ir *refavro.Schema, name string) *refavro.Schema {
+		for _, f := range ir.Fields {
+			if f.Name == name {
+				return f.Type
+			}
+		}
+		return &refavro.Schema{}
+	}
+	c.Eval(1)
+	before := get()
+	if before == nil {
+		return
+	}
+	if field(before, "a").Type != "record" {
+		c.Violate("registered", "unregistered struct is not a record: "+before.JSON(), nil)
+		return
+	}
+	for gen := 1; gen <= 3; gen++ {
+		tag := fmt.Sprintf("c15-gen-%d", gen)
+		avro.RegisterSchema(reflect.TypeOf(c15Reg{}), avro.Schema{Type: "long", Object: &avro.SchemaObject{LogicalType: tag}})
+		avro.RegisterSchema(reflect.TypeOf([23]byte{}), avro.Schema{Type: "fixed", Object: &avro.SchemaObject{Name: "f23_" + tag, Size: 23}})
+		ir := get()
+		if ir == nil {
+			return
+		}
+		c.Eval(1)
+		isReg := func(s *refavro.Schema) bool { return s.Type == "long" && s.LogicalType == tag }
+		isFix := func(s *refavro.Schema) bool { return s.Type == "fixed" && s.Size == 23 && s.Name == "f23_"+tag }
+		nullable := func(s *refavro.Schema, ok func(*refavro.Schema) bool) bool {
+			return s.Type == "union" && len(s.Branches) == 2 && s.Branches[0].Type == "null" && ok(s.Branches[1])
+		}
+		a, p, sl, m, o := field(ir, "a"), field(ir, "p"), field(ir, "s"), field(ir, "m"), field(ir, "o")
+		u, pu, su := field(ir, "u"), field(ir, "pu"), field(ir, "su")
+		switch {
+		case !isReg(a):
+			c.Violate("registered", fmt.Sprintf("after registration %d the field of the registered type is %s", gen, a.JSON()), nil)
+		case !nullable(p, isReg):
+			c.Violate("registered", fmt.Sprintf("after registration %d the pointer to the registered type is %s", gen, p.JSON()), nil)
+		case sl.Type != "array" || !isReg(sl.Items):
+			c.Violate("registered", fmt.Sprintf("after registration %d the slice of the registered type is %s", gen, sl.JSON()), nil)
+		case m.Type != "map" || !isReg(m.Values):
+			c.Violate("registered", fmt.Sprintf("after registration %d the map of the registered type is %s", gen, m.JSON()), nil)
+		case !nullable(o, isReg):
+			c.Violate("registered", fmt.Sprintf("after registration %d the omitempty field of the registered type is %s", gen, o.JSON()), nil)
+		case !isFix(u):
+			c.Violate("registered", fmt.Sprintf("after registration %d the field of the registered unnamed type [23]byte is %s", gen, u.JSON()), nil)
+		case !nullable(pu, isFix):
+			c.Violate("registered", fmt.Sprintf("after registration %d the pointer to the registered unnamed type is %s", gen, pu.JSON()), nil)
+		case su.Type != "array" || !isFix(su.Items):
+			c.Violate("registered", fmt.Sprintf("after registration %d the slice of the registered unnamed type is %s", gen, su.JSON()), nil)
+		default:
+			c.Count("registration-scenarios-ok", 1)
+			continue
+		}
+		return
+	}
+}
+
 func runC15(c *core.Ctx, i int) {
 	ns := len(statictypes.Cases)
 	nr := len(statictypes.RecursiveCases)
+	if i == ns+nr {
+		c15registration(c)
+	}
 	switch {
 	case i < ns:
 		sc := statictypes.Cases[i]
@@ -269,6 +353,9 @@ func init() {
 			}
 			if a.C("class.unsupported") < 100 || a.C("class.unspecified") < 100 {
 				u = append(u, "too few unsupported/unspecified types")
+			}
+			if a.C("registration-scenarios-ok") < 3 {
+				u = append(u, fmt.Sprintf("registration-scenarios-ok=%d < 3", a.C("registration-scenarios-ok")))
 			}
 			if a.C("recursive-presented") < 1 {
 				u = append(u, "no recursive type presented")
